@@ -168,6 +168,35 @@ theorem normPath_sound {o : Ops K} (ho : OrderedEqLike o) (env : Nat → K) {pat
   obtain ⟨cb0, hmem, hin⟩ := hcb
   exact normCB_sound ho env 8 cb0.1 cb0.2 (hp cb0 hmem) cb hin
 
+theorem ordLE_sound {o : Ops K} (ho : OrderedEqLike o) (env : Nat → K) {np : Path} (hp : PathHolds o env np) {a b : E}
+    (h : ordLE np a b = true) : a.eval o env ≤ b.eval o env := by
+  have hO := ho.toOrderedLike
+  simp only [ordLE, Bool.or_eq_true] at h
+  rcases h with h | h
+  · exact pathLE_sound hO env h hp
+  · have := slackNonneg_sound hO env h
+    simp only [E.eval, hO.sub] at this; linarith
+
+theorem ordLT_sound {o : Ops K} (ho : OrderedEqLike o) (env : Nat → K) {np : Path} (hp : PathHolds o env np) {a b : E}
+    (h : ordLT np a b = true) : a.eval o env < b.eval o env := by
+  have hO := ho.toOrderedLike
+  simp only [ordLT, Bool.or_eq_true] at h
+  rcases h with h | h
+  · exact pathLT_sound hO env h hp
+  · simp only [trivLT, List.any_eq_true, Bool.and_eq_true] at h
+    obtain ⟨l, _, hl, hq⟩ := h
+    have he := polyEq_sound' hO.toRingLike hq env
+    cases l with
+    | lit n dd =>
+      simp only [isPosLit, Bool.and_eq_true, decide_eq_true_eq, bne_iff_ne, ne_eq] at hl
+      have hpos : (0 : K) < (E.lit n dd).eval o env := by
+        simp only [E.eval, hO.litq]
+        exact div_pos (by exact_mod_cast hl.1) (by exact_mod_cast Nat.pos_of_ne_zero hl.2)
+      simp only [E.eval, hO.sub] at he
+      have : (0 : K) < b.eval o env - a.eval o env := by rw [he]; simpa [E.eval] using hpos
+      linarith
+    | _ => simp [isPosLit] at hl
+
 theorem impliedAtom_sound {o : Ops K} (ho : OrderedEqLike o) (env : Nat → K) {np : Path}
     (hp : PathHolds o env np) {c : C} {b : Bool} (h : impliedAtom np c = some b) : c.eval o env = b := by
   have hO := ho.toOrderedLike
@@ -175,16 +204,16 @@ theorem impliedAtom_sound {o : Ops K} (ho : OrderedEqLike o) (env : Nat → K) {
   | lt x y =>
     simp only [impliedAtom] at h
     split at h
-    · rename_i h1; cases h; simpa [C.eval, hO.lt] using pathLT_sound hO env h1 hp
+    · rename_i h1; cases h; simpa [C.eval, hO.lt] using ordLT_sound ho env hp h1
     · split at h
-      · rename_i h1; cases h; simpa [C.eval, hO.lt] using pathLE_sound hO env h1 hp
+      · rename_i h1; cases h; simpa [C.eval, hO.lt] using ordLE_sound ho env hp h1
       · cases h
   | le x y =>
     simp only [impliedAtom] at h
     split at h
-    · rename_i h1; cases h; simpa [C.eval, hO.le] using pathLE_sound hO env h1 hp
+    · rename_i h1; cases h; simpa [C.eval, hO.le] using ordLE_sound ho env hp h1
     · split at h
-      · rename_i h1; cases h; simpa [C.eval, hO.le] using pathLT_sound hO env h1 hp
+      · rename_i h1; cases h; simpa [C.eval, hO.le] using ordLT_sound ho env hp h1
       · cases h
   | eq x y =>
     simp only [impliedAtom] at h
@@ -193,13 +222,13 @@ theorem impliedAtom_sound {o : Ops K} (ho : OrderedEqLike o) (env : Nat → K) {
       rw [Bool.or_eq_true] at h1
       simp only [C.eval, ho.eq, decide_eq_false_iff_not]
       rcases h1 with h1 | h1
-      · exact ne_of_lt (pathLT_sound hO env h1 hp)
-      · exact ne_of_gt (pathLT_sound hO env h1 hp)
+      · exact ne_of_lt (ordLT_sound ho env hp h1)
+      · exact ne_of_gt (ordLT_sound ho env hp h1)
     · split at h
       · rename_i h1; cases h
         rw [Bool.and_eq_true] at h1
         simp only [C.eval, ho.eq, decide_eq_true_eq]
-        exact le_antisymm (pathLE_sound hO env h1.1 hp) (pathLE_sound hO env h1.2 hp)
+        exact le_antisymm (ordLE_sound ho env hp h1.1) (ordLE_sound ho env hp h1.2)
       · cases h
   | _ => simp [impliedAtom] at h
 
